@@ -10,6 +10,19 @@
 // Em and Li have a non-empty first base, so the Callback::Emitter / Callback::Listener sub-objects
 // sit at a non-zero offset: Slot::receiver (Listener*) and Slot::object (void*, the full object)
 // are different addresses, as in client code with several bases.
+//
+// Round 5: the typed front ends are also instantiated with V != X and W != Y.  A listener of kind 1 or 2 is an
+// object of class Li2 : PadL2, Li (data in both bases, Li at a non-zero offset inside Li2).  Kind 1 is connected
+// through Li's own slot pointers (template parameters W = Li2, Y = Li: `Y* y = dest` has to adjust the address and
+// the slot has to run on the Li sub-object), kind 2 through the same slots cast to `void (Li2::*)(...)` (W = Y = Li2,
+// a member pointer whose this-adjustment is non-zero: MemberFuncPtr has to keep and compare all of its bytes).
+// An emitter of kind 1 is an object of class Em2 : PadE2, Em handed over as Em2* (V = Em2, X = Em).  Kinds are given
+// by the case configuration: `k<digits>` one digit per listener, `j<digits>` one digit per emitter (last repeats).
+// Every slot checks the identity fields of the sub-object it runs on (`?bad-receiver` otherwise) and that the pad
+// in front of it is untouched.
+//
+// Slots with memory: `def l s @k <action>` is performed only by the k-th invocation of slot s of listener l in the
+// case, `def l s @k+ <action>` by the k-th and every later one (the model's scripts see the invocation log).
 #include "vh.hpp"
 #define private public
 #define protected public
@@ -19,7 +32,7 @@
 
 enum { MAXE = 4, MAXL = 4, NSG = 3, NSLOT = 4, MAXA = 16, NAR = 9 };
 
-struct Act { char k; int a, b, c, d; };   // k: c d e L E
+struct Act { char k; int a, b, c, d; int g; bool gplus; };   // k: c d e L E; g: 0 = always, n = at the n-th invocation (gplus: and later)
 
 class Li;
 static void run_slot(Li* self, int s);
@@ -89,9 +102,17 @@ public:
   FOR_ARITIES(DECL_SLOT)
 };
 
+// objects whose Li / Em part is a NON-FIRST base with data in front of it and behind it
+struct PadL2 { long q[7]; };
+struct PadE2 { long r[2]; };
+class Li2 : public PadL2, public Li { public: long tail2[2]; };
+class Em2 : public PadE2, public Em { public: long tail2[3]; };
+enum { PADQ = 0x5a5a0000 };
+
 #define TABLES(A) \
   typedef void (Em::*Sig##A)(TYPES##A); static Sig##A sigs##A[NSG] = { &Em::s##A##_0, &Em::s##A##_1, &Em::s##A##_2 }; \
-  typedef void (Li::*Slt##A)(TYPES##A); static Slt##A slts##A[NSLOT] = { &Li::t##A##_0, &Li::t##A##_1, &Li::t##A##_2, &Li::t##A##_3 };
+  typedef void (Li::*Slt##A)(TYPES##A); static Slt##A slts##A[NSLOT] = { &Li::t##A##_0, &Li::t##A##_1, &Li::t##A##_2, &Li::t##A##_3 }; \
+  typedef void (Li2::*Slu##A)(TYPES##A); static Slu##A slus##A[NSLOT] = { static_cast<Slu##A>(&Li::t##A##_0), static_cast<Slu##A>(&Li::t##A##_1), static_cast<Slu##A>(&Li::t##A##_2), static_cast<Slu##A>(&Li::t##A##_3) };
 FOR_ARITIES(TABLES)
 
 static int sgar[NSG];                              // arity of signal index sg in this case
@@ -115,13 +136,16 @@ static Callback::MemberFuncPtr sigkey(int sg)
 }
 static bool is_slot(const Callback::MemberFuncPtr& p, int k)
 {
-#define TEST_SLOT(A) if(Callback::MemberFuncPtr(slts##A[k]) == p) return true;
+#define TEST_SLOT(A) if(Callback::MemberFuncPtr(slts##A[k]) == p || Callback::MemberFuncPtr(slus##A[k]) == p) return true;
   FOR_ARITIES(TEST_SLOT)
   return false;
 }
 
 static int ne, nl, nsg, maxd, depth;
 static Em* em[MAXE]; static Li* li[MAXL];         // 0 when destroyed
+static Em2* em2[MAXE]; static Li2* li2[MAXL];     // the complete object when the emitter / listener is of kind 1, 2 (else 0)
+static int lkind[MAXL], ekind[MAXE];
+static int ncalls[MAXL][NSLOT];                   // invocations of each slot in this case
 static Em* emp[MAXE]; static Li* lip[MAXL];       // addresses kept for the dumps
 static Act script[MAXL][NSLOT][MAXA]; static int nscript[MAXL][NSLOT];
 static int cur_e[64], cur_sg[64], cur_n[64], serial;
@@ -131,7 +155,7 @@ static char trbuf[1 << 23]; static size_t trlen;      // internal data of the em
 
 static bool parse_act(char** v, int n, Act& a)
 {
-  a.a = a.b = a.c = a.d = 0;
+  a.a = a.b = a.c = a.d = 0; a.g = 0; a.gplus = false;
   if(!strcmp(v[0], "c") && n == 5) a.k = 'c';
   else if(!strcmp(v[0], "d") && n == 5) a.k = 'd';
   else if(!strcmp(v[0], "e") && n == 3) a.k = 'e';
@@ -145,20 +169,32 @@ static bool parse_act(char** v, int n, Act& a)
 static bool okE(int e) { return e >= 0 && e < ne && em[e]; }
 static bool okL(int l) { return l >= 0 && l < nl && li[l]; }
 
+// the classes have no virtual destructor: delete through the pointer to the complete object
+static void destroy_l(int l) { Li* p = li[l]; Li2* p2 = li2[l]; li[l] = 0; li2[l] = 0; if(p2) delete p2; else delete p; }
+static void destroy_e(int e) { Em* p = em[e]; Em2* p2 = em2[e]; em[e] = 0; em2[e] = 0; if(p2) delete p2; else delete p; }
+
 static void perform(const Act& a)
 {
   switch(a.k) {
   case 'c':
     if(okE(a.a) && okL(a.c) && a.b < nsg && a.d < NSLOT)
       switch(sgar[a.b]) {
-#define CASE_CONNECT(A) case A: Callback::connect(em[a.a], sigs##A[a.b], li[a.c], slts##A[a.d]); break;
+#define CONNECT_L(A, EM) \
+        if(lkind[a.c] == 1) Callback::connect(EM, sigs##A[a.b], li2[a.c], slts##A[a.d]); \
+        else if(lkind[a.c] == 2) Callback::connect(EM, sigs##A[a.b], li2[a.c], slus##A[a.d]); \
+        else Callback::connect(EM, sigs##A[a.b], li[a.c], slts##A[a.d]);
+#define CASE_CONNECT(A) case A: if(ekind[a.a] == 1) { CONNECT_L(A, em2[a.a]) } else { CONNECT_L(A, em[a.a]) } break;
       FOR_ARITIES(CASE_CONNECT)
       }
     break;
   case 'd':
     if(okE(a.a) && okL(a.c) && a.b < nsg && a.d < NSLOT)
       switch(sgar[a.b]) {
-#define CASE_DISCONNECT(A) case A: Callback::disconnect(em[a.a], sigs##A[a.b], li[a.c], slts##A[a.d]); break;
+#define DISCONNECT_L(A, EM) \
+        if(lkind[a.c] == 1) Callback::disconnect(EM, sigs##A[a.b], li2[a.c], slts##A[a.d]); \
+        else if(lkind[a.c] == 2) Callback::disconnect(EM, sigs##A[a.b], li2[a.c], slus##A[a.d]); \
+        else Callback::disconnect(EM, sigs##A[a.b], li[a.c], slts##A[a.d]);
+#define CASE_DISCONNECT(A) case A: if(ekind[a.a] == 1) { DISCONNECT_L(A, em2[a.a]) } else { DISCONNECT_L(A, em[a.a]) } break;
       FOR_ARITIES(CASE_DISCONNECT)
       }
     break;
@@ -170,8 +206,8 @@ static void perform(const Act& a)
       --depth;
     }
     break;
-  case 'L': if(okL(a.a)) { Li* p = li[a.a]; li[a.a] = 0; delete p; } break;
-  case 'E': if(okE(a.a)) { Em* p = em[a.a]; em[a.a] = 0; delete p; } break;
+  case 'L': if(okL(a.a)) destroy_l(a.a); break;
+  case 'E': if(okE(a.a)) destroy_e(a.a); break;
   }
 }
 
@@ -206,7 +242,9 @@ static void run_slot(Li* self, int s)
 {
   volatile unsigned m = self->magic;     // touches the receiver: ASan reports a destroyed one here
   int id = self->id;
-  if(m != 0x51075107u || id < 0 || id >= MAXL) { printf("?bad-receiver\n"); abort(); }
+  if(m != 0x51075107u || id < 0 || id >= MAXL || li[id] != self) { printf("?bad-receiver\n"); abort(); }
+  if(li2[id]) for(int k = 0; k < 7; ++k) if(li2[id]->q[k] != PADQ + id * 16 + k) { printf("?pad-overwritten\n"); abort(); }
+  int nth = ++ncalls[id][s];
   // generated programs stay below 200 invocations (cost filter of the check): at twice that the emission is taken not to end
   if(++ninv > 400) { printf("?runaway-emission\n"); abort(); }
   loglen += snprintf(logbuf + loglen, sizeof(logbuf) - loglen, "%s%d.%d>%d.%d", loglen ? " " : "", cur_e[depth - 1], cur_sg[depth - 1], id, s);
@@ -214,8 +252,11 @@ static void run_slot(Li* self, int s)
   int me = cur_e[depth - 1], msg = cur_sg[depth - 1];
   snapshot('<', me, msg);
   // the script lives outside the object: the slot may destroy its own listener
-  for(int k = 0; k < nscript[id][s]; ++k)
-    perform(script[id][s][k]);
+  for(int k = 0; k < nscript[id][s]; ++k) {
+    const Act& a = script[id][s][k];
+    if(a.g == 0 || nth == a.g || (a.gplus && nth > a.g))
+      perform(a);
+  }
   snapshot('>', me, msg);
 }
 
@@ -294,8 +335,8 @@ static void dump()
 static void cleanup_objs()
 {
   // listeners first, then emitters (any order is legal for the library)
-  for(int l = 0; l < MAXL; ++l) if(li[l]) { Li* p = li[l]; li[l] = 0; delete p; }
-  for(int e = 0; e < MAXE; ++e) if(em[e]) { Em* p = em[e]; em[e] = 0; delete p; }
+  for(int l = 0; l < MAXL; ++l) if(li[l]) destroy_l(l);
+  for(int e = 0; e < MAXE; ++e) if(em[e]) destroy_e(e);
 }
 
 static void begin(long, vh::Tok& t)
@@ -305,14 +346,26 @@ static void begin(long, vh::Tok& t)
   if(ne > MAXE) ne = MAXE; if(nl > MAXL) nl = MAXL; if(nsg > NSG) nsg = NSG; if(maxd > 60) maxd = 60;
   depth = 0; serial = 0;
   // arities: `a<digits>`, digit k = arity of signal index k, the last digit repeats; default all 0
+  // kinds: `k<digits>` per listener, `j<digits>` per emitter (see the head of this file); `p<digits>` concerns the reference object only
   for(int k = 0; k < NSG; ++k) sgar[k] = 0;
-  if(t.n > 6 && t.v[6][0] == 'a' && t.v[6][1]) {
-    const char* d = t.v[6] + 1; int last = 0;
-    for(int k = 0; k < NSG; ++k) { if(*d) { last = *d >= '0' && *d <= '8' ? *d - '0' : 0; ++d; } sgar[k] = last; }
+  for(int k = 0; k < MAXL; ++k) lkind[k] = 0;
+  for(int k = 0; k < MAXE; ++k) ekind[k] = 0;
+  for(int q = 6; q < t.n; ++q) {
+    const char* d = t.v[q] + 1; int last = 0;
+    if(!t.v[q][0] || !*d) continue;
+    if(t.v[q][0] == 'a') for(int k = 0; k < NSG; ++k) { if(*d) { last = *d >= '0' && *d <= '8' ? *d - '0' : 0; ++d; } sgar[k] = last; }
+    if(t.v[q][0] == 'k') for(int k = 0; k < MAXL; ++k) { if(*d) { last = *d >= '0' && *d <= '2' ? *d - '0' : 0; ++d; } lkind[k] = last; }
+    if(t.v[q][0] == 'j') for(int k = 0; k < MAXE; ++k) { if(*d) { last = *d >= '0' && *d <= '1' ? *d - '0' : 0; ++d; } ekind[k] = last; }
   }
-  memset(nscript, 0, sizeof(nscript));
-  for(int e = 0; e < ne; ++e) { em[e] = new Em; em[e]->id = e; em[e]->magic = 0xE177E177u; emp[e] = em[e]; }
-  for(int l = 0; l < nl; ++l) { li[l] = new Li; li[l]->id = l; li[l]->magic = 0x51075107u; lip[l] = li[l]; }
+  memset(nscript, 0, sizeof(nscript)); memset(ncalls, 0, sizeof(ncalls));
+  for(int e = 0; e < ne; ++e) {
+    if(ekind[e]) { em2[e] = new Em2; em[e] = em2[e]; for(int k = 0; k < 2; ++k) em2[e]->r[k] = PADQ + 0x100 + e * 16 + k; } else { em2[e] = 0; em[e] = new Em; }
+    em[e]->id = e; em[e]->magic = 0xE177E177u; emp[e] = em[e];
+  }
+  for(int l = 0; l < nl; ++l) {
+    if(lkind[l]) { li2[l] = new Li2; li[l] = li2[l]; for(int k = 0; k < 7; ++k) li2[l]->q[k] = PADQ + l * 16 + k; } else { li2[l] = 0; li[l] = new Li; }
+    li[l]->id = l; li[l]->magic = 0x51075107u; lip[l] = li[l];
+  }
 }
 
 static void op(long c, long, vh::Tok& t)
@@ -320,7 +373,10 @@ static void op(long c, long, vh::Tok& t)
   if(!strcmp(t.v[0], "def")) {
     Act a;
     int l = t.n > 1 ? atoi(t.v[1]) : -1, s = t.n > 2 ? atoi(t.v[2]) : -1;
-    if(l < 0 || l >= MAXL || s < 0 || s >= NSLOT || t.n < 4 || !parse_act(t.v + 3, t.n - 3, a) || nscript[l][s] >= MAXA) { printf("%ld ?bad-def\n", c); return; }
+    int first = 3, g = 0; bool gplus = false;
+    if(t.n > 3 && t.v[3][0] == '@') { g = atoi(t.v[3] + 1); gplus = t.v[3][strlen(t.v[3]) - 1] == '+'; first = 4; if(g < 1) g = 1; }
+    if(l < 0 || l >= MAXL || s < 0 || s >= NSLOT || t.n < first + 1 || !parse_act(t.v + first, t.n - first, a) || nscript[l][s] >= MAXA) { printf("%ld ?bad-def\n", c); return; }
+    a.g = g; a.gplus = gplus;
     script[l][s][nscript[l][s]++] = a;
     printf("%ld def\n", c);
     return;
